@@ -422,16 +422,16 @@ theorem decCount_length {cw : Nat} {bs r : Bytes} {n : Nat} (h : decCount cw bs 
     have := readLE_length h
     exact ⟨cw, this, by simp [h0]⟩
 
-theorem bufCost_le (n : Nat) : bufCost n ≤ 18 * n := by
+theorem bufCost_le (n : Nat) : bufCost n ≤ 36 * n := by
   unfold bufCost
   split
   · omega
-  · have : n / 4 ≤ n := Nat.div_le_self n 4
+  · have : n / 2 ≤ n := Nat.div_le_self n 2
     omega
 
 theorem bufCost_mono {n m : Nat} (h : n ≤ m) : bufCost n ≤ bufCost m := by
   unfold bufCost
-  have : n / 4 ≤ m / 4 := Nat.div_le_div_right h
+  have : n / 2 ≤ m / 2 := Nat.div_le_div_right h
   split <;> split <;> omega
 
 theorem mul_step {a ovh De D c : Nat} (ha : a ≤ De * c) (hc : 1 ≤ c) (hD : ovh + De ≤ D) :
@@ -524,9 +524,9 @@ mutual
             obtain ⟨_, rfl⟩ := hr
             refine ⟨bs.length - r'.length, by omega, by omega, ?_⟩
             simp only [R.ok]
-            have h1 : bufCost n ≤ 18 * n := bufCost_le n
-            have h2 : 18 * n ≤ 18 * (bs.length - r'.length) := Nat.mul_le_mul_left _ (by omega)
-            have h3 : 18 * (bs.length - r'.length) ≤ D * (bs.length - r'.length) :=
+            have h1 : bufCost n ≤ 36 * n := bufCost_le n
+            have h2 : 36 * n ≤ 36 * (bs.length - r'.length) := Nat.mul_le_mul_left _ (by omega)
+            have h3 : 36 * (bs.length - r'.length) ≤ D * (bs.length - r'.length) :=
               Nat.mul_le_mul_right _ hD
             omega
           · refine ⟨fun v rest hr => by simp [R.fail] at hr, fun _ => ?_⟩
